@@ -46,11 +46,16 @@ def run(tier, replay):
         with cf.ThreadPoolExecutor(8) as ex:
             parts = list(ex.map(lambda j: wv.record(res, PID + "/j%d" % j[0], [j[1]]), enumerate(jobs)))
         events = [consts]
+        if True:
+            # the shipped 16 MiB chunk: lengths around one and two chunks, T = 4 (thorough: also 1 and 16)
+            big = wv.build("h_e2e_prod", ["hash", "aes", "pipe", "kernel"], ["h_e2e.cpp"], [], sanitize=False, opt="-O2")
+            for T in ((4,) if tier == "quick" else (1, 4, 16)):
+                parts.append(wv.record(res, PID + "/big%d" % T, [(big, ["big", T])], timeout=2400))
         for p in parts:
             for e in p:
                 e["id"] = len(events); events.append(e)
     bad, st = wv.validate_trace("WencryTrace", events, name=PID + "/tlc", env={"FULL": "0"})
-    rts = [e for e in events if e["e"] == "rt"]
+    rts = [e for e in events if e["e"] in ("rt", "rtbig")]
     keys = set((e["S"], e["T"], e["n"], e["cm"], e["hm"]) for e in rts)
     nontriv = [k for k in keys if k[2] % 16 in (0, 1, 15) or k[2] % k[0] in (0, 1, k[0] - 1) or (k[2] + 16 - k[2] % 16) % k[0] == 0]
     res.cov.update({"traces_validated_against_impl": len(rts), "evaluations": len(events), "distinct_nontrivial": len(nontriv),
@@ -64,6 +69,6 @@ def run(tier, replay):
             res.violation("production constants break a relation the format relies on: " + why[:300], {"events": [e]})
         else:
             res.violation("round trip S=%s T=%s n=%s cm=%s hm=%s: %s" % (e.get("S"), e.get("T"), e.get("n"), e.get("cm"), e.get("hm"), why[:300]), {"events": [e]})
-    res.assumptions += ["contents, keys, seeds sampled; lengths exhaustive in 0..4S+17 for the harness chunk sizes; the production chunk size is covered by the constants probe (and one thorough run), not by exhaustive lengths",
+    res.assumptions += ["contents, keys, seeds sampled; lengths exhaustive in 0..4S+17 for the harness chunk sizes; the production chunk size (16 MiB) is exercised at 7 lengths around one and two chunks (bytes compared by the driver, lengths/verdicts by TLC) and by the constants probe, not by exhaustive lengths",
                         "the parallel composition is discharged by C03 (pipeline output = sequential Chunking output under every schedule)"]
     return res.finish()
